@@ -106,7 +106,7 @@ fn run_native(enc: &[u64]) -> Vec<F> {
             let k = enc[i + 1] as usize;
             let xs: Vec<F> = enc[i + 2..i + 2 + k].iter().map(|&x| F::from_canonical_u64(x)).collect();
             // mix the API entry points: element-wise and slice-wise must agree
-            if k % 2 == 0 {
+            if (k + i) % 3 != 0 {
                 ch.observe_elements(&xs);
             } else {
                 for x in xs {
@@ -163,6 +163,29 @@ pub fn emit(e: &mut Emitter, seed: u64, thorough: bool) {
         let class = ["all-max", "low-half-ones", "high-half-ones", "noncanonical", "boundary", "canonical", "mixture"][kind as usize];
         layers(e, class, s, &mut r);
     }
+    // carry-shaped MDS inputs: solve lane 1 so that the reduced row sum of lane 0 lands just below
+    // 2^64 while 8*state[0] is non-canonical as well (the double-carry of the final addition)
+    let circ: [u128; 12] = [17, 15, 41, 16, 2, 28, 13, 13, 39, 18, 34, 20];
+    let mut made = 0;
+    let mut tries = 0;
+    while made < (if thorough { 400 } else { 60 }) && tries < 100_000 {
+        tries += 1;
+        let mut s = [0u64; 12];
+        for x in s.iter_mut() { *x = if r.coin() { r.next() } else { r.below(P) }; }
+        s[0] = (1u64 << 61) - 1 - r.below(1 << 20);
+        let others: u128 = (0..12).filter(|&i| i != 1).map(|i| circ[i] * s[i] as u128).sum();
+        let h = r.range(1, 120) as u128;
+        let t = (u64::MAX - r.below(1 << 24)) as u128;            // wanted reduced value
+        let lo = t.wrapping_sub(h * EPS as u128) & (u64::MAX as u128);
+        let target = lo + (h << 64);
+        if target <= others { continue; }
+        let diff = target - others;
+        let s1 = diff / 15;
+        if s1 > u64::MAX as u128 { continue; }
+        s[1] = s1 as u64;
+        layers(e, "mds-lane0-double-carry", s, &mut r);
+        made += 1;
+    }
     // sponge: every length 0..=40 and some longer; outputs beyond one squeeze
     let lens: Vec<usize> = (0..=40).chain([63, 64, 65, 100, 135, 200]).collect();
     for &len in &lens {
@@ -198,6 +221,26 @@ pub fn emit(e: &mut Emitter, seed: u64, thorough: bool) {
     for _ in 0..(if thorough { 3000 } else { 300 }) {
         let enc = history(&mut r, 40);
         e.case("challenger-history", format!("c13 chal {}", join(enc.iter())), || can(&run_native(&enc)));
+    }
+    // targeted: a partial block, then one call that completes it and adds whole blocks, then more
+    // than one rate's worth of squeezes (and variations with further absorbs in between)
+    for _ in 0..(if thorough { 600 } else { 80 }) {
+        let mut enc = vec![];
+        let p = r.range(1, 7);
+        enc.push(1); enc.push(p);
+        for _ in 0..p { enc.push(r.below(P)); }
+        let m = r.range(0, 3);
+        let len = (8 - p) + 8 * m;
+        enc.push(1); enc.push(len);
+        for _ in 0..len { enc.push(r.below(P)); }
+        enc.push(2); enc.push(r.range(7, 20));
+        if r.coin() {
+            let k = r.range(1, 17);
+            enc.push(1); enc.push(k);
+            for _ in 0..k { enc.push(r.below(P)); }
+            enc.push(2); enc.push(r.range(1, 18));
+        }
+        e.case("challenger-partial-then-aligned", format!("c13 chal {}", join(enc.iter())), || can(&run_native(&enc)));
     }
     // in-circuit challenger on the same kind of histories (through witness generation + proof)
     for _ in 0..(if thorough { 60 } else { 8 }) {
